@@ -80,6 +80,26 @@ def show(d: dict) -> dict:
             else (f"FactoryManager@{id(v) % 100000}" if k == "factory_manager" else v) for k, v in d.items()}
 
 
+LONG_LIVED: dict = {}
+
+
+def long_lived():
+    """Objects that outlive the contexts: an exporter and a benchmark built at import time under the default settings, and
+    an exporter built during the PREVIOUS observation (whatever settings were in force then)."""
+    if not LONG_LIVED:
+        import io
+        LONG_LIVED["io"] = io
+        LONG_LIVED["grid_engine"] = fl.Engine("g", input_variables=[fl.InputVariable("a", minimum=0.0, maximum=1.0)])
+        LONG_LIVED["fld_default"] = fl.FldExporter(headers=False, output_values=False)
+        LONG_LIVED["fld_previous"] = fl.FldExporter(headers=False, output_values=False)
+        ten = fl.Engine(
+            "ten", input_variables=[fl.InputVariable("a", minimum=0.0, maximum=1.0, terms=[fl.Triangle("t", 0.0, 0.5, 1.0)])],
+            output_variables=[fl.OutputVariable("o", minimum=0.0, maximum=20.0, defuzzifier=fl.WeightedAverage(), terms=[fl.Constant("k", 10.0)])],
+            rule_blocks=[fl.RuleBlock("rb", activation=fl.General(), rules=[fl.Rule.create("if a is any then o is k")])])
+        LONG_LIVED["benchmarks"] = [(off, fl.Benchmark("b", ten, np.array([[0.5, 10.0 + off]]))) for off in (0.046875, 0.3125)]
+    return LONG_LIVED
+
+
 def observe_helpers(acc: Acc, case: dict, model: dict, where: str) -> None:
     """Formatting/comparison helpers must see exactly the values in force."""
     d = model["decimals"]
@@ -87,6 +107,49 @@ def observe_helpers(acc: Acc, case: dict, model: dict, where: str) -> None:
     got = fl.Op.str(1 / 3)
     if got != want:
         acc.violate("helper", {"helper": "Op.str"}, {**case, "where": where}, want, got, f"Op.str(1/3) = {got} with decimals={d}")
+    # numpy scalars and arrays of every floating type are numbers too
+    for x in (np.float32(0.25), np.float16(0.75), np.array([0.5, 0.125], dtype=np.float32)):
+        want = " ".join(f"{float(v):.{d}f}" for v in np.atleast_1d(x))
+        got = fl.Op.str(x)
+        if got != want:
+            acc.violate("helper", {"helper": "Op.str", "kind": str(np.asarray(x).dtype)}, {**case, "where": where}, want, got,
+                        f"Op.str({x!r}) = {got} with decimals={d}")
+    # long-lived objects read the settings when they are USED, not when they were built (observed once per worker for
+    # every distinct combination of: decimals when the previous exporter was built, the values in force, kind of point)
+    ll = long_lived()
+    key = (ll.get("previous_decimals"), d, model["atol"], model["rtol"], np.dtype(model["float_type"]).name, where.split("@")[0])
+    if key in ll.setdefault("observed", set()):
+        return_early = True
+    else:
+        return_early = False
+        ll["observed"].add(key)
+    if return_early:
+        return finish_helpers(acc, case, model, where)
+    ll["previous_decimals"] = d
+    acc.cls("long_lived_object_observations")
+    for key in ("fld_default", "fld_previous"):
+        w = ll["io"].StringIO()
+        ll[key].write(ll["grid_engine"], w, np.array([[0.25]]))
+        want = f"{0.25:.{d}f}"
+        if w.getvalue().strip() != want:
+            acc.violate("helper", {"helper": "FldExporter", "built": key}, {**case, "where": where}, want, w.getvalue().strip(),
+                        f"an FldExporter built {'at import time' if key == 'fld_default' else 'during the previous observation'} writes "
+                        f"{w.getvalue().strip()!r} with decimals={d}")
+    ll["fld_previous"] = fl.FldExporter(headers=False, output_values=False)
+    for off, bench in ll["benchmarks"]:
+        want_ok = bool(off <= model["atol"] + model["rtol"] * 10.0)
+        try:
+            bench.run()
+            got_ok = True
+        except AssertionError:
+            got_ok = False
+        if got_ok != want_ok:
+            acc.violate("helper", {"helper": "Benchmark.run"}, {**case, "where": where}, want_ok, got_ok,
+                        f"Benchmark.run accepts={got_ok} an error of {off} on a value of 10 with atol={model['atol']} rtol={model['rtol']}")
+    finish_helpers(acc, case, model, where)
+
+
+def finish_helpers(acc: Acc, case: dict, model: dict, where: str) -> None:
     for x, y in ((1.0, 1.0005), (100.0, 111.0), (0.01, 0.0104), (0.0, 0.4), (0.0, 0.0625)):
         want_close = bool(abs(x - y) <= model["atol"] + model["rtol"] * abs(y))
         got_close = bool(fl.Op.is_close(x, y))
@@ -277,6 +340,7 @@ def summarize(tier: str, seed: int, merged: dict) -> dict:
 
 def replay(case: dict):
     acc = Acc(ID)
+    LONG_LIVED.clear()  # (the once-per-worker memo of observed configurations must not hide the replayed observation)
     levels = tuple(tuple(s) for s in case["levels"])
     mode = tuple(case["mode"])
     assign = tuple(case["assign"]) if case.get("assign") else None
